@@ -218,6 +218,18 @@ def fuzz_campaign(target, corpus_files, prefixes, tier, seed, stats, known, dict
                 with open(os.path.join(corp, "s%05d" % n), "wb") as fo:
                     fo.write(pre + body)
                 n += 1
+        # variants of the first seed files with a declared single-byte encoding and bytes above 0x7f: the declaration
+        # routes the document through the unknown-encoding handler and its byte tables
+        for k, f in enumerate(corpus_files[:6]):
+            body = open(f, "rb").read()
+            enc = [b"iso-8859-2", b"cp-1250", b"cp-1251"][k % 3]
+            decl = b'<?xml version="1.0" encoding="' + enc + b'"?>'
+            v, cnt = re.subn(rb"<\?xml[^>]*\?>", decl, body, 1)
+            if not cnt:
+                v = decl + body
+            v = v.replace(b"<description>", b"<description>\xa1\xb1\xe8\xff ", 1)
+            with open(os.path.join(corp, "e%05d" % k), "wb") as fo:
+                fo.write(prefixes[0] + v)
         cmd = [build.exe(target), "-fork=%d" % forks, "-ignore_crashes=1", "-ignore_timeouts=1", "-ignore_ooms=1",
                "-detect_leaks=0", "-close_fd_mask=3", "-max_total_time=%d" % secs, "-timeout=30", "-rss_limit_mb=3000",
                "-seed=%d" % (seed % 2 ** 31 or 1), "-max_len=8192", "-artifact_prefix=" + arts + "/", corp]
@@ -272,7 +284,9 @@ def gkf_dict():
     if os.path.exists(xsd):
         for m in re.finditer(r'name="([^"]+)"|value="([^"]+)"', open(xsd).read()):
             words.add(m.group(1) or m.group(2))
-    return sorted(w for w in words if len(w) < 30)
+    # declared encodings reach the unknown-encoding handler and its byte tables (shared by all three parsers)
+    words.update('encoding="%s"' % e for e in ("iso-8859-2", "cp-1250", "windows-1250", "cp-1251", "windows-1251", "x-none", "utf-16"))
+    return sorted(w for w in words if len(w) < 60)
 
 
 def run_fuzz_gkf(tier, seed, stats, known):
